@@ -19,8 +19,528 @@ structure Serializable (c : Conn) : Prop where
   smlen : c.q.smQueue.length < 2 ^ 32
   smdata : ∀ e ∈ c.q.smQueue, e.data.length < 2 ^ 32
 
+/-! ### bit level: a big-endian u32 splits into four bytes and back -/
+
+theorem u32_join_split (v : UInt32) :
+    ((v >>> 24).toUInt8.toUInt32 <<< 24) ||| ((v >>> 16).toUInt8.toUInt32 <<< 16) |||
+      ((v >>> 8).toUInt8.toUInt32 <<< 8) ||| v.toUInt8.toUInt32 = v := by
+  apply UInt32.eq_of_toBitVec_eq
+  have h24 : UInt32.toBitVec 24 % 32 = 24#32 := by decide
+  have h16 : UInt32.toBitVec 16 % 32 = 16#32 := by decide
+  have h8 : UInt32.toBitVec 8 % 32 = 8#32 := by decide
+  simp only [UInt32.toBitVec_or, UInt32.toBitVec_shiftLeft, UInt32.toBitVec_shiftRight,
+    UInt8.toBitVec_toUInt32, UInt32.toBitVec_toUInt8, h24, h16, h8, BitVec.shiftLeft_eq',
+    BitVec.ushiftRight_eq', BitVec.toNat_ofNat]
+  apply BitVec.eq_of_getLsbD_eq
+  intro i hi
+  simp only [BitVec.getLsbD_or, BitVec.getLsbD_shiftLeft, BitVec.getLsbD_setWidth,
+    BitVec.getLsbD_ushiftRight]
+  have : i = 0 ∨ i = 1 ∨ i = 2 ∨ i = 3 ∨ i = 4 ∨ i = 5 ∨ i = 6 ∨ i = 7 ∨ i = 8 ∨ i = 9 ∨ i = 10 ∨
+      i = 11 ∨ i = 12 ∨ i = 13 ∨ i = 14 ∨ i = 15 ∨ i = 16 ∨ i = 17 ∨ i = 18 ∨ i = 19 ∨ i = 20 ∨
+      i = 21 ∨ i = 22 ∨ i = 23 ∨ i = 24 ∨ i = 25 ∨ i = 26 ∨ i = 27 ∨ i = 28 ∨ i = 29 ∨ i = 30 ∨
+      i = 31 := by omega
+  rcases this with h|h|h|h|h|h|h|h|h|h|h|h|h|h|h|h|h|h|h|h|h|h|h|h|h|h|h|h|h|h|h|h <;> subst h <;> simp
+
+theorem u32_split_join (b0 b1 b2 b3 : UInt8) (v : UInt32)
+    (h : v = (b0.toUInt32 <<< 24) ||| (b1.toUInt32 <<< 16) ||| (b2.toUInt32 <<< 8) ||| b3.toUInt32) :
+    (v >>> 24).toUInt8 = b0 ∧ (v >>> 16).toUInt8 = b1 ∧ (v >>> 8).toUInt8 = b2 ∧ v.toUInt8 = b3 := by
+  subst h
+  have h24 : UInt32.toBitVec 24 % 32 = 24#32 := by decide
+  have h16 : UInt32.toBitVec 16 % 32 = 16#32 := by decide
+  have h8 : UInt32.toBitVec 8 % 32 = 8#32 := by decide
+  refine ⟨?_, ?_, ?_, ?_⟩ <;> apply UInt8.eq_of_toBitVec_eq <;>
+  simp only [UInt32.toBitVec_or, UInt32.toBitVec_shiftLeft, UInt32.toBitVec_shiftRight,
+    UInt8.toBitVec_toUInt32, UInt32.toBitVec_toUInt8, h24, h16, h8, BitVec.shiftLeft_eq',
+    BitVec.ushiftRight_eq', BitVec.toNat_ofNat] <;>
+  apply BitVec.eq_of_getLsbD_eq <;> intro i hi <;>
+  simp only [BitVec.getLsbD_or, BitVec.getLsbD_shiftLeft, BitVec.getLsbD_setWidth,
+    BitVec.getLsbD_ushiftRight] <;>
+  (have : i = 0 ∨ i = 1 ∨ i = 2 ∨ i = 3 ∨ i = 4 ∨ i = 5 ∨ i = 6 ∨ i = 7 := by omega) <;>
+  rcases this with h|h|h|h|h|h|h|h <;> subst h <;> simp
+/-! ### `Except` plumbing and "these bytes sit at this offset" -/
+
+theorem bind_ok {ε α β} (x : Except ε α) (f : α → Except ε β) (r : β) :
+    (x >>= f) = .ok r ↔ ∃ a, x = .ok a ∧ f a = .ok r := by
+  cases x <;> simp [bind, Except.bind]
+
+/-- `enc` occurs in `b` starting at offset `pos` -/
+def At (b : Bytes) (pos : Nat) (enc : Bytes) : Prop := enc <+: b.drop pos
+
+theorem at_nil (b : Bytes) (pos : Nat) : At b pos [] := List.nil_prefix
+
+theorem at_cons (b : Bytes) (pos : Nat) (x : UInt8) (e : Bytes) :
+    At b pos (x :: e) ↔ b[pos]? = some x ∧ At b (pos + 1) e := by
+  unfold At
+  rw [List.drop_eq_getElem?_toList_append]
+  cases h : b[pos]? with
+  | none =>
+    have : b.length ≤ pos := by simpa using h
+    simp [List.drop_eq_nil_of_le (show b.length ≤ pos + 1 by omega)]
+  | some y => simp [List.cons_prefix_cons, eq_comm]
+
+theorem at_append (b : Bytes) (pos : Nat) (e1 e2 : Bytes) :
+    At b pos (e1 ++ e2) ↔ At b pos e1 ∧ At b (pos + e1.length) e2 := by
+  induction e1 generalizing pos with
+  | nil => simp [at_nil]
+  | cons x e ih => 
+    simp only [List.cons_append, at_cons, ih, List.length_cons, and_assoc]
+    rw [show pos + 1 + e.length = pos + (e.length + 1) by omega]
+
+theorem at_cast {b : Bytes} {p q : Nat} {e : Bytes} (h : At b p e) (hpq : p = q) : At b q e := hpq ▸ h
+
+theorem at_len (b : Bytes) (pos : Nat) (e : Bytes) (h : At b pos e) (hne : e ≠ []) :
+    pos + e.length ≤ b.length := by
+  obtain ⟨t, ht⟩ := h
+  have := congrArg List.length ht
+  simp at this
+  have : e.length > 0 := List.length_pos_iff.2 hne
+  omega
+
+theorem at_all (b : Bytes) (pos : Nat) (e : Bytes) (h : At b pos e) (hl : pos + e.length = b.length) :
+    b.drop pos = e := by
+  obtain ⟨t, ht⟩ := h
+  have := congrArg List.length ht
+  simp at this
+  have : t = [] := List.length_eq_zero_iff.1 (by omega)
+  simp [← ht, this]
+
+/-! ### each loader succeeds exactly on the encoding of its result -/
+
+theorem rd_ok (b : Bytes) (i : Nat) (x : UInt8) : rd b i = .ok x ↔ b[i]? = some x := by
+  unfold rd; cases b[i]? <;> simp
+
+theorem rd_of_lt (b : Bytes) (i : Nat) (h : i < b.length) : rd b i = .ok b[i] := by
+  simp [rd, List.getElem?_eq_getElem h]
+
+theorem loadU32_ok (b : Bytes) (pos : Nat) (tag : UInt8) (v : UInt32) (p' : Nat) :
+    loadU32 b pos tag = .ok (v, p') ↔ p' = pos + 5 ∧ At b pos (storeU32 tag v) := by
+  simp only [storeU32, u32be, at_cons, at_nil, and_true]
+  unfold loadU32
+  by_cases h0 : pos ≥ b.length
+  · simp [h0, throw, throwThe, MonadExceptOf.throw, bind, Except.bind]
+  · have h0' : pos < b.length := by omega
+    simp only [h0, rd_of_lt b pos h0', List.getElem?_eq_getElem h0']
+    by_cases ht : b[pos] = tag
+    · by_cases h5 : pos + 1 + 4 > b.length
+      · simp [ht, h5, throw, throwThe, MonadExceptOf.throw, bind, Except.bind]
+        intro _ _ _ _ h
+        have := (List.getElem?_eq_some_iff.1 h).1
+        omega
+      · rw [rd_of_lt b (pos + 1) (by omega), rd_of_lt b (pos + 2) (by omega),
+          rd_of_lt b (pos + 3) (by omega), rd_of_lt b (pos + 4) (by omega)]
+        simp only [ht, h5, bind, Except.bind, pure, Except.pure, if_false, ne_eq, not_true]
+        rw [List.getElem?_eq_getElem (show pos + 1 < b.length by omega),
+          List.getElem?_eq_getElem (show pos + 1 + 1 < b.length by omega),
+          List.getElem?_eq_getElem (show pos + 1 + 1 + 1 < b.length by omega),
+          List.getElem?_eq_getElem (show pos + 1 + 1 + 1 + 1 < b.length by omega)]
+        simp only [Except.ok.injEq, Prod.mk.injEq, Option.some.injEq]
+        constructor
+        · rintro ⟨h, rfl⟩
+          have := u32_split_join _ _ _ _ _ h.symm
+          simp [this]
+        · rintro ⟨rfl, h1, h2, h3, h4⟩
+          simp only [h2, h3, h4, and_true]
+          exact u32_join_split v
+    · simp [ht, throw, throwThe, MonadExceptOf.throw, bind, Except.bind]
+
+theorem rdMany_ok (b : Bytes) (p n : Nat) (s : Bytes) :
+    rdMany b p n = .ok s ↔ s.length = n ∧ At b p s := by
+  induction n generalizing p s with
+  | zero =>
+    simp only [rdMany, pure, Except.pure, Except.ok.injEq]
+    constructor
+    · rintro rfl; exact ⟨rfl, at_nil _ _⟩
+    · rintro ⟨h, -⟩; exact (List.length_eq_zero_iff.1 h).symm
+  | succ n ih =>
+    simp only [rdMany, bind_ok, rd_ok, ih, pure, Except.pure, Except.ok.injEq]
+    constructor
+    · rintro ⟨x, hx, r, ⟨hl, hr⟩, rfl⟩
+      exact ⟨by simp [hl], (at_cons _ _ _ _).2 ⟨hx, hr⟩⟩
+    · rintro ⟨hl, ha⟩
+      cases s with
+      | nil => simp at hl
+      | cons x r =>
+        rw [at_cons] at ha
+        exact ⟨x, ha.1, r, ⟨by simpa using hl, ha.2⟩, rfl⟩
+
+theorem storeU32_length (t : UInt8) (v : UInt32) : (storeU32 t v).length = 5 := rfl
+
+theorem toNat_ofNat_lt (n : Nat) (h : n < 2 ^ 32) : (UInt32.ofNat n).toNat = n := by
+  simp [UInt32.toNat_ofNat']; omega
+
+theorem loadString_ok (b : Bytes) (pos : Nat) (s : Bytes) (p' : Nat) :
+    loadString b pos = .ok (s, p') ↔
+      p' = pos + 5 + s.length ∧ s.length < 2 ^ 32 ∧ At b pos (storeString s) := by
+  unfold loadString storeString
+  simp only [bind_ok, Prod.exists, loadU32_ok, at_append, storeU32_length]
+  constructor
+  · rintro ⟨l, p, ⟨rfl, hu⟩, h⟩
+    by_cases hc : pos + 5 + l.toNat > b.length
+    · simp [hc, throw, throwThe, MonadExceptOf.throw, bind, Except.bind] at h
+    · simp only [hc, if_false, pure, Except.pure, bind_ok, rdMany_ok] at h
+      obtain ⟨s', ⟨hl, hs⟩, h⟩ := h
+      simp only [Except.ok.injEq, Prod.mk.injEq] at h
+      obtain ⟨rfl, rfl⟩ := h
+      have : l.toNat < 2 ^ 32 := l.toNat_lt
+      refine ⟨by omega, by omega, ?_, hs⟩
+      rw [hl]; simpa using hu
+  · rintro ⟨rfl, hl, hu, hs⟩
+    refine ⟨UInt32.ofNat s.length, pos + 5, ⟨rfl, hu⟩, ?_⟩
+    rw [toNat_ofNat_lt _ hl]
+    have hlen : pos + 5 + s.length ≤ b.length := by
+      have := at_len b pos (storeU32 0x7a (UInt32.ofNat s.length) ++ s)
+        ((at_append _ _ _ _).2 ⟨hu, hs⟩) (by simp [storeU32])
+      simpa [storeU32_length, Nat.add_assoc] using this
+    have hc : ¬ (pos + 5 + s.length > b.length) := by omega
+    simp only [hc, if_false, pure, Except.pure, bind_ok]
+    exact ⟨s, (rdMany_ok _ _ _ _).2 ⟨rfl, hs⟩, rfl⟩
+
+def encSend (l : List Bytes) : Bytes := (l.map storeString).flatten
+def encSm (l : List (UInt32 × Bytes)) : Bytes :=
+  (l.map fun x => storeU32 0x1a x.1 ++ storeString x.2).flatten
+
+theorem storeString_length (s : Bytes) : (storeString s).length = 5 + s.length := by
+  simp [storeString, storeU32_length]
+
+theorem encSend_cons (s : Bytes) (r : List Bytes) : encSend (s :: r) = storeString s ++ encSend r := rfl
+theorem encSm_cons (x : UInt32 × Bytes) (r : List (UInt32 × Bytes)) :
+    encSm (x :: r) = storeU32 0x1a x.1 ++ storeString x.2 ++ encSm r := rfl
+
+theorem loadSendQueue_ok (b : Bytes) (n pos : Nat) (l : List Bytes) (p' : Nat) :
+    loadSendQueue b n pos = .ok (l, p') ↔
+      l.length = n ∧ (∀ s ∈ l, s.length < 2 ^ 32) ∧ p' = pos + (encSend l).length ∧
+        At b pos (encSend l) := by
+  induction n generalizing pos l p' with
+  | zero =>
+    simp only [loadSendQueue, pure, Except.pure, Except.ok.injEq, Prod.mk.injEq]
+    constructor
+    · rintro ⟨rfl, rfl⟩; simp [encSend, at_nil]
+    · rintro ⟨h, -, rfl, -⟩
+      obtain rfl := List.length_eq_zero_iff.1 h
+      simp [encSend]
+  | succ n ih =>
+    simp only [loadSendQueue, bind_ok, Prod.exists, loadString_ok, ih, pure, Except.pure,
+      Except.ok.injEq, Prod.mk.injEq]
+    constructor
+    · rintro ⟨s, p, ⟨rfl, hs, has⟩, r, p'', ⟨hl, hall, rfl, har⟩, rfl, rfl⟩
+      refine ⟨by simp [hl], ?_, ?_, ?_⟩
+      · intro x hx
+        rcases List.mem_cons.1 hx with rfl | hx
+        · exact hs
+        · exact hall x hx
+      · simp [encSend_cons, storeString_length]; omega
+      · rw [encSend_cons, at_append, storeString_length]
+        exact ⟨has, by rwa [← Nat.add_assoc]⟩
+    · rintro ⟨hl, hall, rfl, ha⟩
+      cases l with
+      | nil => simp at hl
+      | cons s r =>
+        rw [encSend_cons, at_append, storeString_length, ← Nat.add_assoc] at ha
+        refine ⟨s, _, ⟨rfl, hall s (by simp), ha.1⟩, r, _,
+          ⟨by simpa using hl, fun x hx => hall x (by simp [hx]), rfl, ha.2⟩, rfl, ?_⟩
+        simp [encSend_cons, storeString_length]; omega
+
+theorem loadSmQueue_ok (b : Bytes) (n pos : Nat) (l : List (UInt32 × Bytes)) (p' : Nat) :
+    loadSmQueue b n pos = .ok (l, p') ↔
+      l.length = n ∧ (∀ x ∈ l, x.2.length < 2 ^ 32) ∧ p' = pos + (encSm l).length ∧
+        At b pos (encSm l) := by
+  induction n generalizing pos l p' with
+  | zero =>
+    simp only [loadSmQueue, pure, Except.pure, Except.ok.injEq, Prod.mk.injEq]
+    constructor
+    · rintro ⟨rfl, rfl⟩; simp [encSm, at_nil]
+    · rintro ⟨h, -, rfl, -⟩
+      obtain rfl := List.length_eq_zero_iff.1 h
+      simp [encSm]
+  | succ n ih =>
+    simp only [loadSmQueue, bind_ok, Prod.exists, loadString_ok, loadU32_ok, ih, pure, Except.pure,
+      Except.ok.injEq, Prod.mk.injEq]
+    constructor
+    · rintro ⟨h, p0, ⟨rfl, hah⟩, s, p, ⟨rfl, hs, has⟩, r, p'', ⟨hl, hall, rfl, har⟩, rfl, rfl⟩
+      refine ⟨by simp [hl], ?_, ?_, ?_⟩
+      · intro x hx
+        rcases List.mem_cons.1 hx with rfl | hx
+        · exact hs
+        · exact hall x hx
+      · simp [encSm_cons, storeString_length, storeU32_length]; omega
+      · rw [encSm_cons, at_append, at_append]
+        simp only [List.length_append, storeString_length, storeU32_length]
+        exact ⟨⟨hah, has⟩, by rwa [← Nat.add_assoc, ← Nat.add_assoc]⟩
+    · rintro ⟨hl, hall, rfl, ha⟩
+      cases l with
+      | nil => simp at hl
+      | cons x r =>
+        obtain ⟨h, s⟩ := x
+        rw [encSm_cons, at_append, at_append] at ha
+        simp only [List.length_append, storeString_length, storeU32_length, ← Nat.add_assoc] at ha
+        refine ⟨h, _, ⟨rfl, ha.1.1⟩, s, _, ⟨rfl, hall (h, s) (by simp), ha.1.2⟩, r, _,
+          ⟨by simpa using hl, fun x hx => hall x (by simp [hx]), rfl, ha.2⟩, rfl, ?_⟩
+        simp [encSm_cons, storeString_length, storeU32_length]; omega
+
+/-- the bytes `serialize` writes after the version prefix -/
+def body (p : Parsed) : Bytes :=
+  storeU32 0x1a p.sentNr ++ (storeU32 0x1a p.handledNr ++ (storeString p.id ++
+  (storeU32 0x9a (UInt32.ofNat p.sendq.length) ++ (encSend p.sendq ++
+  (storeU32 0xba (UInt32.ofNat p.smq.length) ++ encSm p.smq)))))
+
+/-- every length fits its 32-bit field and the id is a C string -/
+structure Fits (p : Parsed) : Prop where
+  id : p.id.length < 2 ^ 32
+  idz : (0 : UInt8) ∉ p.id
+  qlen : p.sendq.length < 2 ^ 32
+  qdata : ∀ s ∈ p.sendq, s.length < 2 ^ 32
+  smlen : p.smq.length < 2 ^ 32
+  smdata : ∀ x ∈ p.smq, x.2.length < 2 ^ 32
+
+theorem parseBody_ok (b : Bytes) (p : Parsed) :
+    parseBody b = .ok p ↔ Fits p ∧ At b 5 (body p) ∧ 5 + (body p).length = b.length := by
+  unfold parseBody body
+  simp only [bind_ok, Prod.exists, loadU32_ok, loadString_ok, at_append, storeU32_length,
+    storeString_length]
+  constructor
+  · rintro ⟨sent, p1, ⟨rfl, h1⟩, handled, p2, ⟨rfl, h2⟩, id, p3, ⟨rfl, hid, h3⟩, h⟩
+    by_cases hz : id.contains 0
+    · rw [if_pos hz] at h
+      simp [throw, throwThe, MonadExceptOf.throw, bind, Except.bind] at h
+    · rw [if_neg hz] at h
+      simp only [bind_ok, Prod.exists, loadU32_ok, loadSendQueue_ok, loadSmQueue_ok,
+        pure, Except.pure] at h
+      obtain ⟨n, p4, ⟨rfl, h4⟩, sq, p5, ⟨hn, hsq, rfl, h5⟩, m, p6, ⟨rfl, h6⟩, smq, p7,
+        ⟨hm, hsmq, rfl, h7⟩, h⟩ := h
+      by_cases hfin : 5 + 5 + 5 + 5 + id.length + 5 + (encSend sq).length + 5 + (encSm smq).length
+          ≠ b.length
+      · rw [if_pos hfin] at h
+        simp [throw, throwThe, MonadExceptOf.throw, bind, Except.bind] at h
+      · rw [if_neg hfin] at h
+        simp only [Except.ok.injEq] at h
+        subst h
+        have hn' : UInt32.ofNat sq.length = n := by rw [hn]; simp
+        have hm' : UInt32.ofNat smq.length = m := by rw [hm]; simp
+        have := n.toNat_lt
+        have := m.toNat_lt
+        simp only [hn', hm']
+        refine ⟨⟨hid, by simpa using hz, by show sq.length < _; omega, hsq,
+            by show smq.length < _; omega, hsmq⟩,
+          ⟨h1, h2, h3, at_cast h4 (by omega), at_cast h5 (by omega),
+           at_cast h6 (by omega), at_cast h7 (by omega)⟩, ?_⟩
+        simp only [List.length_append, storeU32_length, storeString_length]
+        omega
+  · rintro ⟨⟨hid, hz, hql, hqd, hsl, hsd⟩, ⟨h1, h2, h3, h4, h5, h6, h7⟩, hlen⟩
+    refine ⟨_, _, ⟨rfl, h1⟩, _, _, ⟨rfl, h2⟩, _, _, ⟨rfl, hid, h3⟩, ?_⟩
+    rw [if_neg (by simpa using hz)]
+    simp only [bind_ok, Prod.exists, loadU32_ok, loadSendQueue_ok, loadSmQueue_ok,
+      pure, Except.pure]
+    refine ⟨_, _, ⟨rfl, at_cast h4 (by omega)⟩, _, _,
+      ⟨(toNat_ofNat_lt _ hql).symm, hqd, rfl, at_cast h5 (by omega)⟩, _, _,
+      ⟨rfl, at_cast h6 (by omega)⟩, _, _,
+      ⟨(toNat_ofNat_lt _ hsl).symm, hsd, rfl, at_cast h7 (by omega)⟩, ?_⟩
+    simp only [List.length_append, storeU32_length, storeString_length] at hlen
+    rw [if_neg (by omega)]
+
+/-! ### no read outside the buffer -/
+
+theorem bind_err {ε α β} (x : Except ε α) (f : α → Except ε β) (e : ε) :
+    (x >>= f) = .error e ↔ x = .error e ∨ ∃ a, x = .ok a ∧ f a = .error e := by
+  cases x <;> simp [bind, Except.bind]
+
+theorem loadU32_safe (b : Bytes) (pos : Nat) (tag : UInt8) : loadU32 b pos tag ≠ .error .oob := by
+  unfold loadU32
+  by_cases h0 : pos ≥ b.length
+  · simp [h0, throw, throwThe, MonadExceptOf.throw, bind, Except.bind]
+  · have h0' : pos < b.length := by omega
+    simp only [h0, rd_of_lt b pos h0']
+    by_cases ht : b[pos] = tag
+    · by_cases h5 : pos + 1 + 4 > b.length
+      · simp [ht, h5, throw, throwThe, MonadExceptOf.throw, bind, Except.bind]
+      · rw [rd_of_lt b (pos + 1) (by omega), rd_of_lt b (pos + 2) (by omega),
+          rd_of_lt b (pos + 3) (by omega), rd_of_lt b (pos + 4) (by omega)]
+        simp [ht, h5, bind, Except.bind, pure, Except.pure]
+    · simp [ht, throw, throwThe, MonadExceptOf.throw, bind, Except.bind]
+
+theorem rdMany_safe (b : Bytes) (p n : Nat) (h : p + n ≤ b.length) : rdMany b p n ≠ .error .oob := by
+  induction n generalizing p with
+  | zero => simp [rdMany, pure, Except.pure]
+  | succ n ih =>
+    simp only [rdMany, rd_of_lt b p (by omega), ne_eq, bind_err, pure, Except.pure]
+    have := ih (p + 1) (by omega)
+    simp [this]
+
+theorem loadString_safe (b : Bytes) (pos : Nat) : loadString b pos ≠ .error .oob := by
+  unfold loadString
+  simp only [ne_eq, bind_err, loadU32_safe, false_or, Prod.exists]
+  rintro ⟨l, p, -, h⟩
+  by_cases hc : p + l.toNat > b.length
+  · simp [hc, throw, throwThe, MonadExceptOf.throw, bind, Except.bind] at h
+  · simp only [hc, if_false, pure, Except.pure, bind_err, rdMany_safe b p l.toNat (by omega)] at h
+    simp at h
+
+theorem loadSendQueue_safe (b : Bytes) (n pos : Nat) : loadSendQueue b n pos ≠ .error .oob := by
+  induction n generalizing pos with
+  | zero => simp [loadSendQueue, pure, Except.pure]
+  | succ n ih => simp [loadSendQueue, bind_err, loadString_safe, ih, pure, Except.pure]
+
+theorem loadSmQueue_safe (b : Bytes) (n pos : Nat) : loadSmQueue b n pos ≠ .error .oob := by
+  induction n generalizing pos with
+  | zero => simp [loadSmQueue, pure, Except.pure]
+  | succ n ih => simp [loadSmQueue, bind_err, loadString_safe, loadU32_safe, ih, pure, Except.pure]
+
+theorem parseBody_safe (b : Bytes) : parseBody b ≠ .error .oob := by
+  unfold parseBody
+  simp only [ne_eq, bind_err, loadU32_safe, loadString_safe, false_or, Prod.exists, not_exists, not_and]
+  intro sent p1 _ handled p2 _ id p3 _
+  by_cases hz : id.contains 0
+  · rw [if_pos hz]; simp [throw, throwThe, MonadExceptOf.throw, bind, Except.bind]
+  · rw [if_neg hz]
+    simp only [bind_err, loadU32_safe, loadSendQueue_safe, loadSmQueue_safe, false_or, Prod.exists,
+      not_exists, not_and, pure, Except.pure]
+    intro n p4 _ sq p5 _ m p6 _ smq p7 _ h
+    split at h <;> simp [throw, throwThe, MonadExceptOf.throw, bind, Except.bind] at h
+
+/-- restore never reads outside the buffer, whatever the bytes -/
+theorem restore_safe (c : Conn) (b : Bytes) : (restore c b).2 ≠ .oob := by
+  unfold restore
+  split; · simp
+  split; · simp
+  split; · simp
+  split; · simp
+  cases h : parseBody b with
+  | ok p => simp
+  | error e =>
+    cases e with
+    | oob => exact absurd h (parseBody_safe b)
+    | invalid => simp
+
+/-- only offline, and only when no SM state is set -/
+theorem offline_only (c : Conn) (b : Bytes) (h : c.q.connected = true ∨ c.hasSm = true) :
+    restore c b = (c, .rc (-2)) := by
+  unfold restore
+  rcases h with h | h
+  · simp [h]
+  · by_cases hc : c.q.connected = true <;> simp [hc, h]
+
+/-- on any connection object a refusal leaves no SM state and no half-built queue behind -/
+theorem reject_clean (c : Conn) (b : Bytes) (c' : Conn) (n : Int) (h : restore c b = (c', .rc n))
+    (hn : n ≠ 0) : c' = c ∨ (c'.hasSm = false ∧ c'.q.queue = [] ∧ c'.q.len = 0 ∧ c'.q.userLen = 0) := by
+  unfold restore at h
+  split at h; · simp only [Prod.mk.injEq] at h; exact .inl h.1.symm
+  split at h; · simp only [Prod.mk.injEq] at h; exact .inl h.1.symm
+  split at h; · simp only [Prod.mk.injEq] at h; exact .inl h.1.symm
+  split at h; · simp only [Prod.mk.injEq] at h; exact .inl h.1.symm
+  split at h
+  · simp only [Prod.mk.injEq, RestoreOut.rc.injEq] at h
+    exact absurd h.2.symm hn
+  · simp only [Prod.mk.injEq] at h
+    right; rw [← h.1]; simp
+
+/-- a refused blob leaves a fresh connection exactly as it was -/
+theorem reject_leaves_fresh (b : Bytes) (c' : Conn) (n : Int) (h : restore fresh b = (c', .rc n))
+    (hn : n ≠ 0) : c' = fresh := by
+  unfold restore at h
+  split at h; · simp only [Prod.mk.injEq] at h; exact h.1.symm
+  split at h; · simp only [Prod.mk.injEq] at h; exact h.1.symm
+  split at h; · simp only [Prod.mk.injEq] at h; exact h.1.symm
+  split at h; · simp only [Prod.mk.injEq] at h; exact h.1.symm
+  split at h
+  · simp only [Prod.mk.injEq, RestoreOut.rc.injEq] at h
+    exact absurd h.2.symm hn
+  · -- err_reload on a fresh object clears what was already clear
+    simp only [Prod.mk.injEq] at h
+    rw [← h.1]; rfl
+
+/-! ### the shape of an accepted restore -/
+
+/-- what `restore fresh` builds from a parsed blob -/
+def restoredConn (p : Parsed) : Conn :=
+  { q := { fresh.q with queue := mkElems 0 p.sendq, len := p.sendq.length, userLen := p.sendq.length,
+                        smEnabled := true, rSent := false, sentNr := p.sentNr,
+                        smQueue := mkSmElems (0 + p.sendq.length) p.smq,
+                        nextUid := 0 + p.sendq.length + p.smq.length },
+    hasSm := true, smSupport := true, canResume := true, resume := true,
+    handledNr := p.handledNr, smId := some p.id }
+
+theorem restore_fresh_ok (b : Bytes) (c' : Conn) (h : restore fresh b = (c', .rc 0)) :
+    ∃ p, b.take 5 = version ∧ parseBody b = .ok p ∧ c' = restoredConn p := by
+  unfold restore at h
+  split at h; · simp at h
+  split at h; · simp at h
+  split at h; · simp at h
+  split at h; · simp at h
+  rename_i hv
+  split at h
+  · rename_i p hp
+    simp only [Prod.mk.injEq, and_true] at h
+    exact ⟨p, by simpa using hv, hp, h.symm⟩
+  · rename_i e he
+    cases e <;> simp at h
+
+theorem restore_fresh_of (b : Bytes) (p : Parsed) (hl : 30 ≤ b.length) (hv : b.take 5 = version)
+    (hp : parseBody b = .ok p) : restore fresh b = (restoredConn p, .rc 0) := by
+  unfold restore
+  rw [if_neg (by simp [fresh]), if_neg (by simp [fresh]), if_neg (by omega), if_neg (by simp [hv])]
+  simp only [hp]
+  rfl
+
+theorem mkElems_data (s : Nat) (l : List Bytes) : (mkElems s l).map (·.data) = l := by
+  unfold mkElems
+  rw [List.map_map]
+  exact List.zipIdx_map_fst 0 l
+
+theorem mkSmElems_data (s : Nat) (l : List (UInt32 × Bytes)) :
+    (mkSmElems s l).map (fun e => (e.smH, e.data)) = l := by
+  unfold mkSmElems
+  rw [List.map_map]
+  exact List.zipIdx_map_fst 0 l
+
+theorem serialize_restoredConn (p : Parsed) : serialize (restoredConn p) = .blob (version ++ body p) := by
+  have h1 : ((mkElems 0 p.sendq).map fun e => storeString e.data).flatten = encSend p.sendq := by
+    have := congrArg (List.map storeString) (mkElems_data 0 p.sendq)
+    rw [List.map_map] at this
+    unfold encSend; rw [← this]; rfl
+  have h2 : ((mkSmElems (0 + p.sendq.length) p.smq).map fun e =>
+      storeU32 0x1a e.smH ++ storeString e.data).flatten = encSm p.smq := by
+    have := congrArg (List.map fun x : UInt32 × Bytes => storeU32 0x1a x.1 ++ storeString x.2)
+      (mkSmElems_data (0 + p.sendq.length) p.smq)
+    rw [List.map_map] at this
+    unfold encSm; rw [← this]; rfl
+  have h3 : (mkElems 0 p.sendq).length = p.sendq.length := by simp [mkElems]
+  have h4 : (mkSmElems (0 + p.sendq.length) p.smq).length = p.smq.length := by simp [mkSmElems]
+  simp only [serialize, restoredConn, body, h1, h2, h3, h4, List.append_assoc]
+  rfl
+
+/-- nothing but a serialised state is accepted: an accepted blob is exactly the serialisation of
+    the state it produced (so truncated, extended or altered blobs are all refused) -/
+theorem restore_strict (b : Bytes) (c' : Conn) (h : restore fresh b = (c', .rc 0)) :
+    serialize c' = .blob b := by
+  obtain ⟨p, hv, hp, rfl⟩ := restore_fresh_ok b c' h
+  rw [serialize_restoredConn]
+  obtain ⟨-, ha, hl⟩ := (parseBody_ok b p).1 hp
+  rw [← at_all b 5 (body p) ha hl, ← hv, List.take_append_drop]
+
+/-- `Serializable` is satisfiable by a state with non-empty queues -/
+example : Serializable
+    { q := { smEnabled := true, sentNr := 5, queue := [{ uid := 0, data := [97, 98], owner := .user }],
+             len := 1, userLen := 1, nextUid := 2,
+             smQueue := [{ uid := 1, data := [99], owner := .user, smH := 4 }] },
+      smSupport := true, canResume := true, handledNr := 7, smId := some [105, 100] } := by
+  constructor <;> simp
+
+theorem serialize_eq (c : Conn) (h : Serializable c) (i : Bytes) (hi : c.smId = some i) :
+    serialize c = .blob (version ++ body ⟨c.q.sentNr, c.handledNr, i, c.q.queue.map (·.data),
+      c.q.smQueue.map (fun e => (e.smH, e.data))⟩) := by
+  simp only [serialize, h.support, h.enabled, h.canResume, hi, body, encSend, encSm, List.map_map,
+    List.length_map, List.append_assoc]
+  rfl
+
 theorem serialize_of_serializable (c : Conn) (h : Serializable c) : ∃ b, serialize c = .blob b := by
-  sorry
+  obtain ⟨i, hi, -⟩ := h.id
+  exact ⟨_, serialize_eq c h i hi⟩
+
+theorem mkElems_pristine (s : Nat) (l : List Bytes) :
+    ∀ e ∈ mkElems s l, e.owner = .user ∧ e.written = 0 ∧ e.wip = false ∧ e.link = none := by
+  intro e he
+  simp only [mkElems, List.mem_map] at he
+  obtain ⟨x, -, rfl⟩ := he
+  exact ⟨rfl, rfl, rfl, rfl⟩
 
 /-- restoring what was serialised reproduces counters, id, both queues (texts, order, sequence
     numbers); restored elements are pristine user elements -/
@@ -32,37 +552,74 @@ theorem restore_serialize (c : Conn) (h : Serializable c) (b : Bytes) (hb : seri
       c'.q.smQueue.map (fun e => (e.smH, e.data)) = c.q.smQueue.map (fun e => (e.smH, e.data)) ∧
       c'.hasSm = true ∧ c'.smSupport = true ∧ c'.q.smEnabled = true ∧ c'.canResume = true ∧
       c'.resume = true ∧ c'.q.connected = false := by
-  sorry
+  obtain ⟨i, hi, hz, hil⟩ := h.id
+  rw [serialize_eq c h i hi] at hb
+  simp only [SerOut.blob.injEq] at hb
+  generalize hp : (⟨c.q.sentNr, c.handledNr, i, c.q.queue.map (·.data),
+      c.q.smQueue.map (fun e => (e.smH, e.data))⟩ : Parsed) = p at hb
+  have hfit : Fits p := by
+    subst hp
+    refine ⟨hil, hz, by simpa using h.qlen, ?_, by simpa using h.smlen, ?_⟩
+    · intro s hs
+      simp only [List.mem_map] at hs
+      obtain ⟨e, he, rfl⟩ := hs
+      exact h.qdata e he
+    · intro x hx
+      simp only [List.mem_map] at hx
+      obtain ⟨e, he, rfl⟩ := hx
+      exact h.smdata e he
+  have hdrop : b.drop 5 = body p := by rw [← hb]; rfl
+  have hlen : 5 + (body p).length = b.length := by rw [← hb]; simp [version]; omega
+  have hparse : parseBody b = .ok p :=
+    (parseBody_ok b p).2 ⟨hfit, by unfold At; rw [hdrop]; exact List.prefix_refl _, hlen⟩
+  have h30 : 30 ≤ b.length := by
+    rw [← hlen]
+    simp only [body, List.length_append, storeU32_length, storeString_length]
+    omega
+  refine ⟨restoredConn p, restore_fresh_of b p h30 (by rw [← hb]; rfl) hparse, ?_⟩
+  subst hp
+  refine ⟨rfl, rfl, hi.symm, mkElems_data _ _, mkElems_pristine _ _, mkSmElems_data _ _,
+    rfl, rfl, rfl, rfl, rfl, rfl⟩
 
-/-- nothing but a serialised state is accepted: an accepted blob is exactly the serialisation of
-    the state it produced (so truncated, extended or altered blobs are all refused) -/
-theorem restore_strict (b : Bytes) (c' : Conn) (h : restore fresh b = (c', .rc 0)) :
-    serialize c' = .blob b := by
-  sorry
-
-/-- restore never reads outside the buffer, whatever the bytes -/
-theorem restore_safe (c : Conn) (b : Bytes) : (restore c b).2 ≠ .oob := by
-  sorry
-
-/-- a refused blob leaves a fresh connection exactly as it was -/
-theorem reject_leaves_fresh (b : Bytes) (c' : Conn) (n : Int) (h : restore fresh b = (c', .rc n))
-    (hn : n ≠ 0) : c' = fresh := by
-  sorry
-
-/-- on any connection object a refusal leaves no SM state and no half-built queue behind -/
-theorem reject_clean (c : Conn) (b : Bytes) (c' : Conn) (n : Int) (h : restore c b = (c', .rc n))
-    (hn : n ≠ 0) : c' = c ∨ (c'.hasSm = false ∧ c'.q.queue = [] ∧ c'.q.len = 0 ∧ c'.q.userLen = 0) := by
-  sorry
-
-/-- only offline, and only when no SM state is set -/
-theorem offline_only (c : Conn) (b : Bytes) (h : c.q.connected = true ∨ c.hasSm = true) :
-    restore c b = (c, .rc (-2)) := by
-  sorry
+theorem mkElems_uids (l : List Bytes) : (mkElems 0 l).map (·.uid) = List.range' 0 l.length := by
+  unfold mkElems
+  rw [List.map_map]
+  have : ((fun e : Elem => e.uid) ∘ fun x : Bytes × Nat =>
+      ({ uid := 0 + x.2, data := x.1, owner := .user } : Elem)) = Prod.snd := by
+    funext x; simp
+  rw [this]
+  exact List.zipIdx_map_snd 0 l
 
 /-- the restored queues satisfy the invariant of native queues, so every C06 theorem applies to a
     restored connection -/
 theorem restored_inv (b : Bytes) (c' : Conn) (h : restore fresh b = (c', .rc 0)) :
     Lemmas.SendQueue.Inv c'.q := by
-  sorry
+  obtain ⟨p, -, -, rfl⟩ := restore_fresh_ok b c' h
+  have hq : (restoredConn p).q.queue = mkElems 0 p.sendq := rfl
+  have hpr := mkElems_pristine 0 p.sendq
+  have hlen : (mkElems 0 p.sendq).length = p.sendq.length := by simp [mkElems]
+  constructor
+  · show ((p.sendq.length : Nat) : Int) = ((mkElems 0 p.sendq).length : Nat)
+    rw [hlen]
+  · show ((p.sendq.length : Nat) : Int) = (Lemmas.SendQueue.userCount (mkElems 0 p.sendq) : Nat)
+    unfold Lemmas.SendQueue.userCount
+    rw [List.filter_eq_self.2 (fun e he => by simp [(hpr e he).1]), hlen]
+  · intro e he; rw [hq] at he; rw [(hpr e he).2.1]; exact Nat.zero_le _
+  · intro e he; rw [hq] at he
+    have := hpr e (List.mem_of_mem_tail he)
+    exact ⟨this.2.1, this.2.2.1⟩
+  · intro e he; rw [hq] at he
+    have hm : e.uid ∈ (mkElems 0 p.sendq).map (·.uid) := List.mem_map.2 ⟨e, he, rfl⟩
+    rw [mkElems_uids, List.mem_range'_1] at hm
+    show e.uid < 0 + p.sendq.length + p.smq.length
+    omega
+  · rw [hq, mkElems_uids]; exact List.nodup_range'
+  · intro i e hi u hu
+    rw [hq] at hi
+    have := (hpr e (List.mem_of_getElem? hi)).2.2.2
+    rw [this] at hu; cases hu
+  · intro e he u hu; rw [hq] at he; rw [(hpr e he).2.2.2] at hu; cases hu
+  · intro e he u hu; rw [hq] at he; rw [(hpr e he).2.2.2] at hu; cases hu
+  · intro e he _; rw [hq] at he; exact (hpr e he).2.1
 
 end Strophe.Lemmas.SmBlob
